@@ -223,6 +223,23 @@ pub fn check(id: &str, tier: Tier) -> i32 {
         }
       }
     }
+    // values whose alignment (16) is twice that of a free-list node: served from segments whose payload starts
+    // at 8 mod 16, next to a thread that walks or changes the list
+    let over: Vec<Vec<TOp>> = vec![vec![T16], vec![T16, DropOwn], vec![B(8), T16]];
+    let other: Vec<Vec<TOp>> = vec![vec![B(16)], vec![B(24)], vec![U64], vec![DropPre(1)], vec![T16], vec![B(16), DropOwn]];
+    let ob = if thorough { 4 } else { 3 };
+    let mut ocount = 0;
+    for fl in [Fl::Optimistic, Fl::Pessimistic] {
+      for shape in [3u8, 11] {
+        for o1 in &over {
+          for o2 in &other {
+            items.push((Harness { fl, unify: true, min_seg: 8, cap: 256, shape, progs: vec![o1.clone(), o2.clone()], own_arenas: false, leave: 0, odd: 0 }, ob));
+            ocount += 1;
+          }
+        }
+      }
+    }
+    bounds.push(json!({"kind": "16-aligned typed allocations from the list", "threads": 2, "preemption_bound": ob, "harnesses": ocount}));
     bounds.push(json!({"kind": "recycling thread against one walker", "threads": 2, "preemption_bound": bound, "shapes": shapes, "long": long.iter().map(|p| progs_str(&[p.clone()])).collect::<Vec<_>>(), "single": single.iter().map(|p| progs_str(&[p.clone()])).collect::<Vec<_>>(), "harnesses": count}));
   }
   if id != "C13" {
